@@ -2,6 +2,9 @@ import WpModel.Drive.Loop
 import WpModel.Drive.C14
 import WpModel.Drive.C14Tags
 import WpModel.Drive.C14Groups
+import WpModel.Drive.C14Percent
+import WpModel.Drive.C14Sheet
 
 def main : IO Unit :=
-  Wp.Drive.runDriver [Wp.Drive.C14.handle, Wp.Drive.C14Tags.handle, Wp.Drive.C14Groups.handle]
+  Wp.Drive.runDriver [Wp.Drive.C14.handle, Wp.Drive.C14Tags.handle, Wp.Drive.C14Groups.handle,
+    Wp.Drive.C14Percent.handle, Wp.Drive.C14Sheet.handle]
